@@ -30,3 +30,11 @@ pub type LabelToSetMap = HashMap<String, GraphColoredVertices>;
 pub mod canonization_export {
     pub use super::canonization::{get_canonical, get_canonical_and_renaming};
 }
+
+/// **(verification hook)** The symbolic primitives (operators and low-level operations), which are
+/// otherwise private to the crate, so that a conformance harness can call them on arbitrary sets.
+#[cfg(hctl_verif)]
+pub mod primitives_export {
+    pub use super::hctl_operators_eval::*;
+    pub use super::low_level_operations::*;
+}
